@@ -186,7 +186,7 @@ class Run:
                     for i, env in enumerate(shard_envs)]
             return [f.result() for f in futs]
 
-    def oracle(self, module, files, *, timeout=1800, heap="3g", extra_env=None):
+    def oracle(self, module, files, *, timeout=1800, heap="3g", extra_env=None, want_known=False):
         """Direction B for pure functions: every NDJSON record of every file is judged by the TLC-evaluated
         oracle module (which prints <<"ORACLE", n, "[bad indices]">>). Returns (records judged, bad records)."""
         for f in files:                       # a crash of the driver is an event no specification allows
@@ -201,16 +201,23 @@ class Run:
         files = [f for f in files if os.path.getsize(f) > 0]
         envs = [dict(extra_env or {}, TRACE=f) for f in files]
         res = self.tlc_shards(module, "Empty.cfg", envs, timeout=timeout, heap=heap)
-        total, bad = 0, []
+        total, bad, known = 0, [], []
         for f, r in zip(files, res):
             m = re.search(r'"ORACLE",\s*(\d+),\s*"(\[.*?\])"', r.out, re.S)
             if not m or not r.ok:
                 raise MachineryError("oracle %s produced no result for %s:\n%s" % (module, f, r.tail(30)))
             total += int(m.group(1))
             idx = json.loads(m.group(2))
-            if idx:
+            k = re.search(r'"KNOWN",\s*"(\[.*?\])"', r.out, re.S)
+            kidx = json.loads(k.group(1)) if k else []
+            k2 = re.search(r'"KNOWN2",\s*"(\[.*?\])"', r.out, re.S)
+            k2idx = set(json.loads(k2.group(1))) if k2 else set()
+            if idx or kidx:
                 lines = open(f).read().splitlines()
-                bad += [json.loads(lines[i - 1]) for i in idx]
+                bad += [dict(json.loads(lines[i - 1]), **({"_known2": True} if i in k2idx else {})) for i in idx]
+                known += [json.loads(lines[i - 1]) for i in kidx]
+        if want_known:
+            return total, bad, known
         return total, bad
 
     def split_file(self, path, n, tag):
